@@ -30,14 +30,14 @@ type C12Case struct {
 func loadBase(name string) (*schema.Schema, *schema.TypeMap, error) {
 	switch name {
 	case "fix44":
-		s, err := schema.Load(schema.RepoDir()+"/source/fix44.xml")
+		s, err := schema.Load(schema.RepoDir() + "/source/fix44.xml")
 		if err != nil {
 			return nil, nil, err
 		}
-		tm, err := schema.LoadTypes(schema.RepoDir()+"/source/types.xml")
+		tm, err := schema.LoadTypes(schema.RepoDir() + "/source/types.xml")
 		return s, tm, err
 	case "big":
-		s, err := schema.Load(schema.RepoDir()+"/generator/testdata/fix.4.4.xml")
+		s, err := schema.Load(schema.RepoDir() + "/generator/testdata/fix.4.4.xml")
 		if err != nil {
 			return nil, nil, err
 		}
@@ -49,7 +49,7 @@ func loadBase(name string) (*schema.Schema, *schema.TypeMap, error) {
 			}
 		}
 		s.Messages = ms
-		tm, err := schema.LoadTypes(schema.RepoDir()+"/generator/testdata/types.xml")
+		tm, err := schema.LoadTypes(schema.RepoDir() + "/generator/testdata/types.xml")
 		return s, tm, err
 	}
 	return nil, nil, fmt.Errorf("unknown base %s", name)
@@ -301,7 +301,7 @@ func checkC12Ref(_ *C12RefCase, rec *evid.Rec) (vs []pbt.Violation) {
 	if err != nil {
 		return []pbt.Violation{pbt.V("emitted-unparsable", "%v", err)}
 	}
-	ref, err := ParseEmitted(schema.RepoDir()+"/tests/fix44")
+	ref, err := ParseEmitted(schema.RepoDir() + "/tests/fix44")
 	if err != nil {
 		return []pbt.Violation{pbt.V("harness", "tests/fix44 does not parse: %v", err)}
 	}
